@@ -68,7 +68,7 @@ fn rand_exts(rng: &mut Rng, total: u64, valid: bool) -> Vec<(u64, usize)> {
 // The harness's own CRC-32C (bitwise, Castagnoli reflected), used only to FIND inputs whose 16-bit
 // fold is zero -- the one input class in 65536 where the "never 0" mapping of the token matters.
 // The expected answers still come from the Coq model, the actual ones from /repo.
-fn own_crc_update(mut crc: u32, c: &[u8]) -> u32 {
+pub(crate) fn own_crc_update(mut crc: u32, c: &[u8]) -> u32 {
     for &b in c {
         crc ^= b as u32;
         for _ in 0..8 {
@@ -77,14 +77,14 @@ fn own_crc_update(mut crc: u32, c: &[u8]) -> u32 {
     }
     crc
 }
-fn own_crc32c(chunks: &[&[u8]]) -> u32 {
+pub(crate) fn own_crc32c(chunks: &[&[u8]]) -> u32 {
     let mut crc = !0u32;
     for c in chunks {
         crc = own_crc_update(crc, c);
     }
     !crc
 }
-fn fold_is_zero(crc: u32) -> bool {
+pub(crate) fn fold_is_zero(crc: u32) -> bool {
     ((crc >> 16) ^ crc) as u16 == 0
 }
 
